@@ -69,13 +69,34 @@ impl Engine for TcpEyesEngine {
         "tcpeyes"
     }
     fn run_case(&self, c: &TcpEyesCase) -> CaseReport {
+        // A deviation that lies within what machine load could explain (0.4-3 s late) is not judged on
+        // one run: the case is repeated, and only the same deviation three times in a row counts.
+        let (rep, slow) = self.run_once(c);
+        let Some((key, _)) = slow else { return rep };
+        let (rep2, slow2) = self.run_once(c);
+        if slow2.as_ref().map(|k| &k.0) != Some(&key) {
+            return rep2;
+        }
+        let (mut rep3, slow3) = self.run_once(c);
+        if let Some((k3, desc)) = slow3 {
+            if k3 == key {
+                rep3.violate(format!("{}/tcp-transport-deviates-repeatedly", self.prop), format!("three runs in a row: {key}; last run: {desc}"));
+            }
+        }
+        rep3
+    }
+}
+
+impl TcpEyesEngine {
+    fn run_once(&self, c: &TcpEyesCase) -> (CaseReport, Option<(String, String)>) {
         let mut rep = CaseReport::default();
+        let mut slow_key: Option<(String, String)> = None;
         let p = self.prop;
         let fx = match fixture() {
             Ok(f) => f,
             Err(e) => {
                 rep.internal_error = Some(format!("fixture: {e}"));
-                return rep;
+                return (rep, None);
             }
         };
         std::thread::sleep(Duration::from_millis(20));
@@ -97,11 +118,38 @@ impl Engine for TcpEyesEngine {
             reuse: None,
         };
         let want = reference(&model);
-        if want.res == Res::Hang {
-            rep.class("would-hang-skipped");
-            return rep;
-        }
         let rt = tokio::runtime::Builder::new_current_thread().enable_all().build().unwrap();
+        if want.res == Res::Hang {
+            // nothing allows progress here (no stagger delay, no deadline, the running attempts neither
+            // fail nor succeed, the others may not be started yet): the operation must still be pending
+            // after half a second. Load can only make it later, never produce an outcome.
+            let early = rt.block_on(async {
+                use hyperdriver::client::conn::transport::tcp::{TcpTransport, TcpTransportConfig};
+                use hyperdriver::stream::tcp::TcpStream;
+                let mut cfg = TcpTransportConfig::default();
+                cfg.happy_eyeballs_timeout = timeout_ms.map(Duration::from_millis);
+                cfg.happy_eyeballs_concurrency = c.conc.map(|x| x as usize);
+                cfg.connect_timeout = Some(Duration::from_secs(20));
+                let transport: TcpTransport<crate::engines::addrsort::ListResolver, TcpStream> =
+                    TcpTransport::builder().with_config(cfg).with_resolver(crate::engines::addrsort::ListResolver(vec![])).build();
+                tokio::time::timeout(Duration::from_millis(500), transport.connect_to_addrs(addrs.clone())).await.ok().map(|r| match r {
+                    Ok(s) => (true, format!("connection to {:?}", s.peer_addr().ok())),
+                    Err(e) => (false, format!("error `{e}`")),
+                })
+            });
+            rep.class("expected-still-pending");
+            if let Some((connected, what)) = early {
+                let desc = format!("candidates {:?} (0 live, 1 dead, 2 hanging) without happy-eyeballs timeout, concurrency {:?}: no stagger delay, no failure and no deadline allows progress, yet the operation ended within 500 ms with {what}", c.cands, c.conc);
+                // a connection means a later candidate was started without cause (pacing, C11); an error
+                // means failure was reported before every candidate had failed (C10)
+                if connected == (p == "C11") {
+                    rep.violate(format!("{p}/tcp-transport-progress-without-cause"), desc);
+                }
+            }
+            rep.nontrivial = n >= 2;
+            rep.total_ops = n as u64;
+            return (rep, None);
+        }
         let (res, elapsed) = rt.block_on(async {
             use hyperdriver::client::conn::transport::tcp::{TcpTransport, TcpTransportConfig};
             use hyperdriver::stream::tcp::TcpStream;
@@ -169,6 +217,7 @@ impl Engine for TcpEyesEngine {
         } else if got != want.res {
             if slow {
                 rep.class("slow-run-inconclusive");
+                slow_key = Some((format!("outcome {got:?} where {:?} is expected", want.res), desc.clone()));
             } else {
                 rep.violate(format!("{p}/tcp-transport-outcome-differs"), desc.clone());
             }
@@ -177,12 +226,13 @@ impl Engine for TcpEyesEngine {
             rep.violate(format!("{p}/tcp-transport-completed-too-early"), desc.clone());
         } else if slow {
             rep.class("slow-run-inconclusive");
+            slow_key = Some(("right outcome, but more than 400 ms later than the pacing allows".to_string(), desc.clone()));
         } else if ms > want_at + 250 {
             rep.violate(format!("{p}/tcp-transport-completed-too-late"), desc.clone());
         }
         rep.nontrivial = n >= 2 && want_at >= 100;
         rep.total_ops = n as u64;
-        rep
+        (rep, slow_key)
     }
 }
 
